@@ -46,10 +46,14 @@ ALGOS = ["PPO", "A2C", "SAC", "DQN", "TD3"]
 
 # ---------------------------------------------------------------- generators
 
-def gen_tree(rng, depth, under_best=False, top=False):
-    kinds = ["rec", "rec", "list", "everyn", "eval", "ckpt", "maxep"]
+def gen_tree(rng, depth, under_best=False, top=False, evp=False):
+    """evp: the node's `parent` attribute is an EvalCallback (directly or through CallbackLists), so
+    StopTrainingOnRewardThreshold / StopTrainingOnNoModelImprovement may be placed here"""
+    kinds = ["rec", "rec", "list", "everyn", "eval", "ckpt", "maxep", "conv"]
     if depth <= 0:
-        kinds = ["rec", "rec", "ckpt", "maxep"]
+        kinds = ["rec", "rec", "ckpt", "maxep", "conv"]
+    if evp:
+        kinds += ["thresh", "thresh", "noimp", "noimp"]
     if under_best:
         kinds = [k for k in kinds if k != "maxep"]  # locals are never delivered below callback_on_new_best
     k = "list" if top and rng.random() < 0.7 else rng.choice(kinds)
@@ -57,15 +61,22 @@ def gen_tree(rng, depth, under_best=False, top=False):
         return {"t": "rec", "stop": rng.choice([0, 0, 0, 0, rng.randint(1, 14)])}
     if k == "list":
         n = rng.choice([0, 1, 2, 2, 3, 4])
-        return {"t": "list", "ch": [gen_tree(rng, depth - 1, under_best) for _ in range(n)]}
+        return {"t": "list", "ch": [gen_tree(rng, depth - 1, under_best, evp=evp) for _ in range(n)]}
     if k == "everyn":
         return {"t": "everyn", "n": rng.choice([1, 2, 3, 4, 5, 7, 9, rng.randint(1, 12)]), "c": gen_tree(rng, depth - 1, under_best)}
     if k == "eval":
         return {"t": "eval", "freq": rng.choice([0, 1, 2, 2, 3, 5]), "evals": [rng.randint(-6, 6) for _ in range(rng.randint(0, 12))],
-                "ob": None if rng.random() < 0.3 else ({"t": "rec", "stop": rng.randint(1, 3)} if rng.random() < 0.35 else gen_tree(rng, depth - 1, True)),
-                "af": None if rng.random() < 0.3 else gen_tree(rng, depth - 1, under_best)}
+                "n_eval": rng.choice([1, 2, 3]),
+                "ob": None if rng.random() < 0.3 else ({"t": "rec", "stop": rng.randint(1, 3)} if rng.random() < 0.25 else gen_tree(rng, depth - 1, True, evp=True)),
+                "af": None if rng.random() < 0.3 else gen_tree(rng, depth - 1, under_best, evp=True)}
     if k == "ckpt":
-        return {"t": "ckpt", "freq": rng.randint(1, 7)}
+        return {"t": "ckpt", "freq": rng.randint(1, 7), "rb": rng.random() < 0.5, "vn": rng.random() < 0.5}
+    if k == "conv":
+        return {"t": "conv", "stop": rng.choice([0, 0, 0, rng.randint(1, 14)])}
+    if k == "thresh":
+        return {"t": "thresh", "thr": rng.randint(-4, 6)}
+    if k == "noimp":
+        return {"t": "noimp", "mx": rng.randint(0, 3), "me": rng.randint(0, 3)}
     return {"t": "maxep", "m": rng.randint(1, 4)}
 
 
@@ -84,7 +95,7 @@ def gen_case(rng, i):
     tree = gen_tree(rng, rng.randint(1, 4), top=True)
     return {"id": i, "algo": algo, "n_envs": n_envs, "rk": rk, "calls": calls, "tree": tree,
             "scripts": [se.gen_script(rng, max_len=5, tag_base=1000 * e) for e in range(n_envs)],
-            "real_eval": rng.random() < 0.12, "learning_starts": rng.choice([0, 3, 1000]), "seed": rng.randint(0, 10**6)}
+            "real_eval": rng.random() < 0.12, "vecnorm": rng.random() < 0.3 and not any(t["t"] == "eval" for t in preorder(tree)), "learning_starts": rng.choice([0, 3, 1000]), "seed": rng.randint(0, 10**6)}
 
 
 def coq_tree(t, ne):
@@ -103,6 +114,12 @@ def coq_tree(t, ne):
         return f"(checkpoint {coq_Z(t['freq'])})"
     if k == "maxep":
         return f"(maxep {coq_Z(t['m'])} {coq_Z(ne)})"
+    if k == "conv":
+        return f"(conv {coq_Z(t['stop'])})"
+    if k == "thresh":
+        return f"(thresh {coq_Z(t['thr'] * t.get('scale', 1))})"
+    if k == "noimp":
+        return f"(noimp {coq_Z(t['mx'])} {coq_Z(t['me'])})"
     raise ValueError(k)
 
 
@@ -151,6 +168,12 @@ def run_impl(case):
             return obs, rews, dones, infos
 
     venv = Stamp(DummyVecEnv([se.make_env_fn(case["scripts"][e], obs_kind="box1", act_kind=act_kind, env_id=e) for e in range(ne)]))
+    train_env = venv
+    if case.get("vecnorm"):
+        from stable_baselines3.common.vec_env import VecNormalize
+
+        train_env = VecNormalize(venv, norm_obs=True, norm_reward=False, clip_obs=1e9)
+    aux_saves = []   # (kind, file name) of replay-buffer / VecNormalize checkpoints
     tmp = tempfile.mkdtemp(prefix="c13_")
     nodes = []  # pre-order (spec, object)
     save_log = []
@@ -181,7 +204,9 @@ def run_impl(case):
             if stamp >= 0 and stamp == venv.count:
                 o, r, d = venv.last
                 lo = self.locals
-                if not (np.array_equal(np.asarray(lo["new_obs"]), o) and np.array_equal(np.asarray(lo["dones"]), d)
+                if case.get("vecnorm"):
+                    o = train_env.normalize_obs(o)     # statistics are those in force since this very step
+                if not (np.allclose(np.asarray(lo["new_obs"]), o, rtol=0, atol=0) and np.array_equal(np.asarray(lo["dones"]), d)
                         and np.array_equal(np.asarray(lo["rewards"]), r)):
                     self.locals_ok = False
             return self.n_calls != self.stop_at
@@ -219,13 +244,29 @@ def run_impl(case):
             eval_env = DummyVecEnv([lambda: Monitor(se.ScriptedEnv(ev_script, obs_kind="box1", act_kind=act_kind))])
             ob = build(t["ob"])
             af = build(t["af"])
-            o = cbm.EvalCallback(eval_env, callback_on_new_best=ob, callback_after_eval=af, n_eval_episodes=2, eval_freq=t["freq"],
+            o = cbm.EvalCallback(eval_env, callback_on_new_best=ob, callback_after_eval=af, n_eval_episodes=t.get("n_eval", 2), eval_freq=t["freq"],
                                  verbose=0, warn=False)
             o._verif_idx = idx
             o._verif_queue = list(t["evals"])
-            eval_log[idx] = {"at": [], "means": []}
+            eval_log[idx] = {"at": [], "means": [], "n_eval": []}
         elif k == "ckpt":
-            o = cbm.CheckpointCallback(save_freq=t["freq"], save_path=tmp, name_prefix=f"ck{idx}x")
+            o = cbm.CheckpointCallback(save_freq=t["freq"], save_path=tmp, name_prefix=f"ck{idx}x", save_replay_buffer=bool(t.get("rb")),
+                                       save_vecnormalize=bool(t.get("vn")))
+        elif k == "conv":
+            clog = []
+
+            def fn(locals_, globals_, clog=clog, idx=idx):
+                oo = nodes[idx][1]
+                infos = locals_.get("infos")
+                clog.append([2, int(oo.n_calls), int(oo.num_timesteps), int(infos[0]["vstep"]) if infos else -1])
+                return oo.n_calls != nodes[idx][0]["stop"]
+
+            o = cbm.ConvertCallback(fn)
+            o._verif_log = clog
+        elif k == "thresh":
+            o = cbm.StopTrainingOnRewardThreshold(reward_threshold=float(t["thr"]), verbose=0)
+        elif k == "noimp":
+            o = cbm.StopTrainingOnNoModelImprovement(max_no_improvement_evals=t["mx"], min_evals=t["me"], verbose=0)
         elif k == "maxep":
             o = cbm.StopTrainingOnMaxEpisodes(max_episodes=t["m"])
         else:
@@ -241,10 +282,13 @@ def run_impl(case):
         owner = callback.__self__
         rec = eval_log[owner._verif_idx]
         rec["at"].append([int(owner.n_calls), int(owner.num_timesteps)])
+        rec["n_eval"].append(int(n_eval_episodes))
+        rec.setdefault("env", []).append(int(venv.count))
         if case["real_eval"]:
             rews, lens = real_eval(model, env, n_eval_episodes=n_eval_episodes, callback=callback, **kw)
-            m8 = float(np.mean(rews)) * 8
-            assert m8 == int(m8), rews
+            m8 = float(np.mean(rews)) * 24
+            assert abs(m8 - round(m8)) < 1e-6, rews
+            m8 = round(m8)
             rec["means"].append(int(m8))
             return rews, lens
         q = owner._verif_queue
@@ -290,13 +334,13 @@ def run_impl(case):
     pk = dict(net_arch=[8])
     rk = case["rk"]
     if algo == "PPO":
-        model = sb3.PPO("MlpPolicy", venv, n_steps=rk[1], batch_size=max(2, rk[1] * ne), n_epochs=1, normalize_advantage=False, policy_kwargs=pk, device="cpu", seed=case["seed"])
+        model = sb3.PPO("MlpPolicy", train_env, n_steps=rk[1], batch_size=max(2, rk[1] * ne), n_epochs=1, normalize_advantage=False, policy_kwargs=pk, device="cpu", seed=case["seed"])
     elif algo == "A2C":
-        model = sb3.A2C("MlpPolicy", venv, n_steps=rk[1], policy_kwargs=pk, device="cpu", seed=case["seed"])
+        model = sb3.A2C("MlpPolicy", train_env, n_steps=rk[1], policy_kwargs=pk, device="cpu", seed=case["seed"])
     else:
         tf = (rk[1], "step" if rk[0] == "step" else "episode")
         cls = getattr(sb3, algo)
-        model = cls("MlpPolicy", venv, train_freq=tf, learning_starts=case["learning_starts"], batch_size=4, buffer_size=200, gradient_steps=1,
+        model = cls("MlpPolicy", train_env, train_freq=tf, learning_starts=case["learning_starts"], batch_size=4, buffer_size=200, gradient_steps=1,
                     policy_kwargs=pk, device="cpu", seed=case["seed"])
     mcls = type(model)
     orig_save = mcls.save
@@ -310,6 +354,21 @@ def run_impl(case):
         return orig_save(self_, path, *a, **k)
 
     mcls.save = rec_save
+    orig_srb = getattr(mcls, "save_replay_buffer", None)
+    if orig_srb is not None:
+        def rec_srb(self_, path, *a, **k):
+            aux_saves.append(["rb", os.path.basename(str(path))])
+            return orig_srb(self_, path, *a, **k)
+
+        mcls.save_replay_buffer = rec_srb
+    from stable_baselines3.common.vec_env import VecNormalize as _VN
+    orig_vns = _VN.save
+
+    def rec_vns(self_, path):
+        aux_saves.append(["vn", os.path.basename(str(path))])
+        return orig_vns(self_, path)
+
+    _VN.save = rec_vns
     cbm.evaluate_policy = eval_stub
     call_info = []
     err = None
@@ -332,6 +391,9 @@ def run_impl(case):
     finally:
         cbm.evaluate_policy = real_eval
         mcls.save = orig_save
+        _VN.save = orig_vns
+        if orig_srb is not None:
+            mcls.save_replay_buffer = orig_srb
     files = sorted(os.listdir(tmp))
     import shutil
 
@@ -349,16 +411,26 @@ def run_impl(case):
         elif k == "eval":
             code = 3
             b = o.best_mean_reward
-            scale = 8 if case["real_eval"] else 1
+            scale = 24 if case["real_eval"] else 1
             ent = [[6, 0, 0, 0] if b == -np.inf else [6, 0, int(round(b * scale)), 1]] + [[6, c_, nt, 0] for c_, nt in eval_log[i]["at"]]
         elif k == "ckpt":
             code, ent = 4, [[7, c_, nt, 0] for j, c_, nt, _ in save_log if j == i]
-        else:
+        elif k == "maxep":
             code, ent = 5, [[8, 0, 0, int(o.n_episodes)]]
+        elif k == "conv":
+            code, ent = 6, o._verif_log
+        elif k == "thresh":
+            code = 7
+        else:
+            code = 8
+            lb = o.last_best_mean_reward
+            scale = 24 if case["real_eval"] else 1
+            ent = [[12, 0, 0, int(o.no_improvement_evals)] if lb == -np.inf else [12, 1, int(round(lb * scale)), int(o.no_improvement_evals)]]
         obs_nodes.append([code, int(o.n_calls), int(o.num_timesteps), ent])
     return {"error": err, "root_trace": root_trace, "envcount": envcount, "nodes": obs_nodes, "calls": call_info,
             "eval_means": {str(i): eval_log[i]["means"] for i in eval_log}, "files": files,
-            "saves": save_log, "locals_ok": [bool(o.locals_ok) for t, o in nodes if t["t"] == "rec"],
+            "saves": save_log, "aux_saves": aux_saves, "eval_n": {str(i): eval_log[i]["n_eval"] for i in eval_log}, "eval_env": {str(i): eval_log[i].get("env", []) for i in eval_log},
+            "off_policy": algo not in ("PPO", "A2C"), "locals_ok": [bool(o.locals_ok) for t, o in nodes if t["t"] == "rec"],
             "final": [int(model.num_timesteps), int(venv.count)]}
 
 
@@ -573,9 +645,70 @@ def oracle(case, impl):
     want_files = sorted({s[3] for s in impl["saves"]})
     if want_files != [f for f in impl["files"] if f.endswith(".zip")]:
         probs.append(("oracle-checkpoint-files", f"files {impl['files']} vs saves {want_files}"))
+    want_aux = []
     for idx, c_, nt, base in impl["saves"]:
         if base != f"ck{idx}x_{nt}_steps.zip":
             probs.append(("oracle-checkpoint-files", f"checkpoint file {base} does not name num_timesteps {nt}"))
+        # replay buffer / VecNormalize statistics are saved at the same instants, when asked for and present
+        if specs[idx].get("rb") and impl.get("off_policy"):
+            want_aux.append(["rb", f"ck{idx}x_replay_buffer_{nt}_steps.pkl"])
+        if specs[idx].get("vn") and case.get("vecnorm"):
+            want_aux.append(["vn", f"ck{idx}x_vecnormalize_{nt}_steps.pkl"])
+    if sorted(map(tuple, want_aux)) != sorted(map(tuple, impl.get("aux_saves", []))):
+        probs.append(("oracle-checkpoint-aux-files", f"replay-buffer / VecNormalize checkpoints {impl.get('aux_saves')} expected {want_aux}"))
+    if sorted({f for _, f in want_aux}) != [f for f in impl["files"] if f.endswith(".pkl")]:
+        probs.append(("oracle-checkpoint-aux-files", f"pkl files {[f for f in impl['files'] if f.endswith('.pkl')]} expected {sorted({f for _, f in want_aux})}"))
+    # children of EvalCallback, from the documented rules (every False propagates to the root: lists conjoin, event callbacks
+    # return their child's result)
+    ret_at = {}
+    for tr in impl["root_trace"]:
+        for j, e in enumerate(tr):
+            if e[0] == 9 and j + 1 < len(tr) and tr[j + 1][0] == 2:
+                ret_at[e[1]] = tr[j + 1][3]
+    scale = 24 if case["real_eval"] else 1
+    for i, t in enumerate(specs):
+        if t["t"] != "eval":
+            continue
+        means = impl["eval_means"].get(str(i), [])
+        envs = impl.get("eval_env", {}).get(str(i), [])
+        best, new_best = None, []
+        for m in means:
+            nb = best is None or m > best
+            new_best.append(nb)
+            if nb:
+                best = m
+        ob, af = t["ob"], t["af"]
+        if ob is not None and ob["t"] in ("rec", "conv"):
+            calls = impl["nodes"][i + 1][1]
+            if calls != sum(new_best):
+                probs.append(("oracle-on-new-best-count", f"eval node {i}: callback_on_new_best was stepped {calls} times, the means {means} contain {sum(new_best)} strict improvements"))
+        if ob is not None and ob["t"] == "thresh":
+            for m, nb, ec in zip(means, new_best, envs):
+                if nb and m >= ob["thr"] * scale and ret_at.get(ec, False):
+                    probs.append(("oracle-reward-threshold-not-stopped", f"eval node {i}: new best mean {m / scale} >= threshold {ob['thr']} at env step {ec}, but the step event returned True"))
+        if ob is None and af is not None and af["t"] == "noimp":
+            last, cnt, bestk = None, 0, None
+            for k, (m, ec) in enumerate(zip(means, envs), 1):
+                bestk = m if bestk is None or m > bestk else bestk
+                stop = False
+                if k > af["me"]:
+                    if last is None or bestk > last:
+                        cnt = 0
+                    else:
+                        cnt += 1
+                        stop = cnt > af["mx"]
+                last = bestk
+                got_stop = not ret_at.get(ec, True)
+                only_stopper = not any((x["t"] in ("rec", "conv") and x["stop"] > 0) or x["t"] in ("maxep", "thresh") or (x["t"] == "noimp" and x is not af) for x in specs)
+                if stop and not got_stop:
+                    probs.append(("oracle-no-improvement-not-stopped", f"eval node {i}: {cnt} consecutive evaluations without a new best (max {af['mx']}, min_evals {af['me']}) at env step {ec}, "
+                                                                       f"but the step event returned True (means {means})"))
+                if got_stop and not stop and only_stopper:
+                    probs.append(("oracle-no-improvement-stopped-early", f"eval node {i}: training stopped at env step {ec} after {cnt} consecutive evaluations without a new best "
+                                                                         f"(max {af['mx']}, min_evals {af['me']}, means {means}); nothing else in the tree can stop training"))
+    for i, t in enumerate(specs):
+        if t["t"] == "eval" and any(n != t.get("n_eval", 2) for n in impl.get("eval_n", {}).get(str(i), [])):
+            probs.append(("oracle-eval-n-episodes", f"eval node {i}: evaluate_policy was asked for {impl['eval_n'][str(i)]} episodes, configured {t.get('n_eval', 2)}"))
     return probs
 
 
@@ -588,6 +721,8 @@ def model_expr(case, impl):
     for i, t in enumerate(preorder(tree)):
         if t["t"] == "eval":
             t["evals_used"] = means.get(str(i), [])
+        if t["t"] == "thresh":
+            t["scale"] = 24 if case["real_eval"] else 1
     calls = []
     for c, info in zip(case["calls"], impl["calls"]):
         calls.append(f"mkCall {coq_Z(c['total'])} {coq_bool(c['reset'])} {coq_list(info['dones'], coq_Z)}")
